@@ -64,16 +64,18 @@ Definition Flist (f : nat) : Prop := forall acc q endk k, q_err q = true -> FK k
 Definition Farray (f : nat) : Prop := forall acc q arr k, q_err q = true -> FK k -> fin (parray b c f acc q arr k) = true.
 Definition Finfix (f : nat) : Prop := forall acc q arr k, q_err q = true -> FK k -> fin (pinfix b c f acc q arr k) = true.
 
-Lemma main_fin : forall f, Fexpr f /\ Flist f /\ Farray f /\ Finfix f.
+Definition Fprefix (f : nat) : Prop := forall acc q name k, q_err q = true -> FK k -> fin (pprefix b c f acc q name k) = true.
+
+Lemma main_fin : forall f, Fexpr f /\ Flist f /\ Farray f /\ Finfix f /\ Fprefix f.
 Proof.
-  induction f as [|f [IHe [IHl [IHa IHi]]]].
+  induction f as [|f [IHe [IHl [IHa [IHi IHp]]]]].
   - repeat split; red; intros; reflexivity.
   - assert (Fexpr (S f)) as HE.
     { red. intros acc top q k He Hk. simpl pexpr. apply look_fin; [exact He|]. intros Hne.
       assert (q_err (q_tail q) = true) as He1 by exact He.
       assert (forall name, FK (fun e q2 => k (list2 (sym name) e) q2)) as Hsug by (intros name e q2 _ H2; apply Hk; [reflexivity|exact H2]).
       destruct (t_kind (tok_at q 0)) eqn:K;
-        try reflexivity; try (apply Hk; [reflexivity|exact He1]); try (apply IHe; [exact He1|apply Hsug]).
+        try reflexivity; try (apply Hk; [reflexivity|exact He1]); try (apply IHp; [exact He1|exact Hk]).
       + apply IHl; assumption.
       + apply IHa; assumption.
       + apply need_fin; [exact He1|]. intros _. apply curly_skip_fin; [exact He1|]. intros q3 tok2 extra He3.
@@ -118,6 +120,9 @@ Proof.
     { red. intros acc q arr k He Hk. simpl pinfix. apply need_fin; [exact He|]. intros _.
       destruct (kind_is (tok_at q 0) TRCurly); [apply Hk; [reflexivity|exact He]|].
       apply IHe; [exact He|]. red. intros e q2 _ H2. apply IHi; assumption. }
+    assert (Fprefix (S f)) as HP.
+    { red. intros acc q name k He Hk. simpl pprefix. apply IHe; [exact He|].
+      red. intros e q2 Hs He2. destruct (is_comment e); [apply IHp; assumption|apply Hk; [reflexivity|exact He2]]. }
     repeat split; assumption.
 Qed.
 
